@@ -37,10 +37,12 @@ def run(chk):
     base = os.path.realpath(tempfile.mkdtemp(prefix='ombverif-c16-'))
     core._scratch.append(base)
     b = os.path.join(base, 'b')
-    for d in ('b/root/sub', 'b/rootx', 'b/root/sub/..a', 'b/root-old', 'b/root.bak', 'b/ROOT', 'b/Root/sub', 'b2/root/sub', 'B/root'):
+    for d in ('b/root/sub', 'b/rootx', 'b/root/sub/..a', 'b/root-old', 'b/root.bak', 'b/ROOT', 'b/Root/sub', 'b2/root/sub', 'B/root',
+              'b/site.v1/pub', 'b/site-v1', 'b/siteXv1', 'b/s+te.v1', 'b/site.v1x'):
         os.makedirs(os.path.join(base, d))
     files = ['b/root/in', 'b/root/sub/deep', 'b/rootx/sib', 'b/top', 'b/root/sub/..a/x', 'b/root-old/o', 'b/root.bak/k', 'b/rootsecret', 'secret',
-             'b/ROOT/in', 'b/ROOT/caps', 'b/Root/sub/deep', 'b2/root/only2', 'b2/root/sub/deep', 'B/root/in']
+             'b/ROOT/in', 'b/ROOT/caps', 'b/Root/sub/deep', 'b2/root/only2', 'b2/root/sub/deep', 'B/root/in',
+             'b/site.v1/in', 'b/site.v1/pub/deep', 'b/site-v1/data', 'b/siteXv1/data', 'b/s+te.v1/data', 'b/site.v1x/data']
     for f in files:
         with open(os.path.join(base, f), 'w') as fh:
             fh.write(f)
@@ -77,7 +79,20 @@ def run(chk):
     odd_roots = [('missing dir', os.path.join(b, 'missing')), ('missing dir/', os.path.join(b, 'nodir') + '/'), ('plain file as root', os.path.join(b, 'top')),
                  ('below a file', os.path.join(b, 'top', 'x')), ('missing below root', os.path.join(b, 'root', 'gone')), ('rel missing', 'missing')]
     odd_names = [('top',), ('rootsecret',), ('in',), ('root', 'in'), ('rootx', 'sib'), ('sub', 'deep'), ('..', 'top'), ('deep',), ('b', 'top'), ('',), ('.',)]
+    # a root whose own path contains characters that mean something to a pattern language ('.', '+'), siblings that differ
+    # exactly there; and relative roots that resolve to the working directory or an ancestor of it
+    meta_root = ('b/site.v1', os.path.join(b, 'site.v1'))
+    meta_names = ['in', 'pub/deep', '../site-v1/data', '../siteXv1/data', '../s+te.v1/data', '../site.v1x/data', 'pub/../../site-v1/data',
+                  '../site.v1/in', '..\\site-v1\\data', '../top']
+    rel_roots = [('rel .', '.', os.path.join(b, 'root')), ('rel ..', '..', os.path.join(b, 'root', 'sub')), ('rel empty', '', os.path.join(b, 'root')),
+                 ('rel sub/..', 'sub/..', os.path.join(b, 'root')), ('rel ../..', '../..', os.path.join(b, 'root', 'sub', '..a')), ('rel ./', './', os.path.join(b, 'root', 'sub'))]
+    rel_names = ['in', 'deep', 'sub/deep', '../top', '../in', '../../top', '../rootx/sib', '../../rootx/sib', '../../../secret', '..', '../sub/deep', 'x']
     jobs = []
+    for nm in meta_names:
+        jobs.append((nm, meta_root))
+    for rname, rroot, rcwd in rel_roots:
+        for nm in rel_names:
+            jobs.append((nm, (rname, rroot, rcwd)))
     for ss in names:
         for sep in (seps if thorough else [rng.choice(seps)]):
             for lead in (leads if thorough and len(ss) < 3 else [rng.choice(leads)]):
@@ -91,9 +106,14 @@ def run(chk):
     for name, fixed_root in jobs:
         if True:
             if True:
-                rname, root = fixed_root or (rng.choice(roots) if not thorough else roots[len(recs) % len(roots)])
+                fr = fixed_root or (rng.choice(roots) if not thorough else roots[len(recs) % len(roots)])
+                rname, root = fr[0], fr[1]
+                forced_cwd = fr[2] if len(fr) > 2 else None
                 # relative roots are resolved against the CURRENT directory of each call: move between two trees that both have ./root
-                if not os.path.isabs(root):
+                if forced_cwd is not None:
+                    cwd = forced_cwd
+                    os.chdir(cwd)
+                elif not os.path.isabs(root):
                     cwd = rng.choice([b, os.path.join(base, 'b2')])
                     os.chdir(cwd)
                 else:
